@@ -8,6 +8,7 @@ import Gama.Model.Packed
 import Gama.Model.ActiveCov
 import Gama.Model.BandChol
 import Gama.Model.CovParse
+import Gama.Model.Homogenization
 open Gama Gama.Proto Gama.Cov
 
 def splitBar (ts : List String) : List (List String) :=
@@ -121,6 +122,43 @@ def opDense (args : List String) : String :=
     | _, _ => "bad-op"
   | _ => "bad-op"
 
+/-- `homrun m n nb | row_1 (c v c v …) | … | row_m | rhs | d b es… (nb blocks)` :
+    the whole `Homogenization::run` on an `AdjInputData`; prints `total_scaled_nonzeroes`, the
+    homogenised right-hand side and the three CRS arrays of the homogenised sparse matrix -/
+def opHomRun (args : List String) : String :=
+  let rec pairs : List String → Option (List (Nat × K))
+    | [] => some []
+    | c :: v :: rest => do
+      let c ← c.toNat?
+      let v ← Wire.parse (K := K) v
+      let r ← pairs rest
+      some ((c, v) :: r)
+    | _ => none
+  match splitBar args with
+  | [mS, nS, nbS] :: groups =>
+    match mS.toNat?, nS.toNat?, nbS.toNat? with
+    | some m, some n, some nb =>
+      if groups.length ≠ m + 1 + nb then "bad-op" else
+      match (groups.take m).mapM pairs, parseAll (K := K) (groups.getD m []),
+            ((groups.drop (m + 1)).mapM fun bl => match bl with | d :: b :: es => mkCov (K := K) d b es | _ => none) with
+      | some rows, some rhs, some bs =>
+        let nnz := (rows.map List.length).sum
+        let A : SMat K := rows.foldl (fun A row => row.foldl (fun A e => A.addElement e.2 e.1) A.newRow)
+          (@SMat.new K ⟨0⟩ nnz m n)
+        let floats := (bs.map fun b => b.buf.size).sum
+        let cov := bs.foldl (fun bd b => bd.addBlock 0 b.dim b.band b.buf) (BlockDiag.init (0 : K) bs.length floats)
+        if !(Hom.canRun A cov rhs.toArray) then "refused" else
+        match Hom.run (bdTol : K) A cov rhs.toArray with
+        | .error e => "throw " ++ e.name
+        | .ok o =>
+          let sm := o.sm
+          let ptr := (List.range' 1 (sm.rcnt + 1)).map fun i => sm.rptr[i]!
+          let nats (l : List Nat) := " ".intercalate (l.map toString)
+          s!"ok {o.total} pr {renderAll o.pr.toList} sm {sm.rows} {sm.cols} {sm.rcnt} {sm.ncnt} ptr {nats ptr} ind {nats (sm.cind.extract 0 sm.ncnt).toList} val {renderAll (sm.nonz.extract 0 sm.ncnt).toList}"
+      | _, _, _ => "bad-op"
+    | _, _, _ => "bad-op"
+  | _ => "bad-op"
+
 end generic
 
 def opIdx (args : List String) : String :=
@@ -191,6 +229,7 @@ def step (_ : Unit) (line : String) : Unit × String :=
     | "bdF" :: a => opBd Float a
     | "sweepF" :: a => opSweep Float a
     | "denseF" :: a => opDense Float a
+    | "homrunF" :: a => opHomRun Float a
     | "covparse" :: a => opParse a
     | _ => "bad-op"
   ((), out)
